@@ -262,6 +262,7 @@ def judge(ctx, form, klass, sig, sample=False, xform=None):
 def run_shard(ctx):
     from ..hooks import counters, install_dyn_hook
     install_dyn_hook(classify)
+    alias_type_pairs(ctx)
     pl = plan(ctx.tier, ctx.seed)
     n = 0
     for qt, (kls, dflts), pos in itertools.product(TYPES, (("static", STATIC), ("dynamic", DYNAMIC), ("ambiguous", AMBIG)), POSITIONS):
@@ -348,6 +349,37 @@ def run_shard(ctx):
     ctx.ctr("dyn_hook_evals", counters.get("dyn", 0))
     for msg in counters.get("dyn_violations", []):
         ctx.viol("hook:default_is_dynamic-disagrees-with-classifier", msg, {"klass": "hook"})
+
+
+ALIAS_PAIRS = [("datetime", "dateTime"), ("location", "geopoint"), ("int", "integer"), ("string", "text"), ("select one l1", "select_one l1"), ("select1 l1", "select_one l1"),
+               ("photo", "image"), ("q geopoint", "geopoint"), ("q date time", "dateTime"), ("add date prompt", "date"), ("select all that apply from l1", "select_multiple l1")]
+HYPHEN_DEFAULTS = ["2020-01-01T00:00:00 - 1", "1 2 - 3", "2020-01-01 - 1", "2020-01-01", "-1", "1 - 1", "a - b", "2020-01-31T12:30:00", "1.5 2.5 0 0", "x-y", "- 1", "today() - 1", "${src} - 1"]
+
+
+def alias_type_pairs(ctx):
+    """A default is read the same way under every spelling of the question type: the alias and the canonical type give the same instance content and
+    the same actions (whether a text is a literal or an expression may depend on the data type - never on how the type cell spells it)."""
+    n = 0
+    for (alias, canon), d, pos in itertools.product(ALIAS_PAIRS, HYPHEN_DEFAULTS + STATIC[:6] + DYNAMIC[:6], ("top", "repeat")):
+        n += 1
+        if not ctx.mine(n):
+            continue
+        res = []
+        for qt in (alias, canon):
+            o = drive.convert_form(default_form(qt, d, pos))
+            if not o.ok:
+                res.append(("refused", o.brief()[:80]))
+                continue
+            p = xf.Parsed(o.xform)
+            nodes = [x_ for x_ in p.primary.iter() if isinstance(x_.tag, str) and xf.local(x_.tag) == "tgt"]
+            acts = sorted((a_.get("event"), a_.get("value")) for a_ in p.root.iter() if isinstance(a_.tag, str) and xf.local(a_.tag) == "setvalue" and (a_.get("ref") or "").endswith("/tgt"))
+            res.append(("ok", tuple((x_.text or "") for x_ in nodes), tuple(acts)))
+        ctx.ctr("alias_type_pairs")
+        ctx.ctr("defaults_judged")
+        ctx.case(sig=f"alias-type|{alias}|{d}|{pos}")
+        if res[0] != res[1] and not (res[0][0] == res[1][0] == "refused"):
+            ctx.viol(f"default:depends-on-type-spelling:{canon.split()[0]}", f"default {d!r} at {pos}: type {alias!r} gives {res[0]}, its canonical spelling {canon!r} gives {res[1]}",
+                     common.witness(default_form(alias, d, pos), klass="alias-type", alias=alias, canon=canon, default=d, pos=pos))
 
 
 def json_histories(ctx):
